@@ -1152,9 +1152,9 @@ def rule_nonempty(fm, rep, rid='R7'):
     # a private `fn is_empty(&MetricValue) -> bool` stays a call (judged per variant below)
     preds = [x for x in cad.all_bodies if x.def_kind in ('Fn', 'AssocFn') and x.arg_count == 1 and x.locals[0].strip() == 'bool' and
              x.locals[1].lstrip('&').strip() == MV and not x.impl_trait]
-    # (no jump threading here: the rule looks for the guard itself; a threaded copy of the scalar paths, whose count is the
-    # constant 1, would bypass it)
-    ib = inl(cad, b, thread=False, never=lambda x: x in preds)
+    # (jump threading without `==` folding: the rule looks for the emptiness comparison itself; with folding the scalar
+    # paths, whose count is the constant 1, would be threaded past it)
+    ib = inl(cad, b, thread='noeq', never=lambda x: x in preds)
     T = Terms(ib)
     # where is the Success state constructed?
     succ_blocks = []
@@ -1168,8 +1168,19 @@ def rule_nonempty(fm, rep, rid='R7'):
     rep.ob(rid, 'success-state-built-in-one-place', len(succ_blocks) == 1 and not elsewhere, b.where(), 'only from_fmt creates the sendable state')
     guarded = False
     why = 'no emptiness guard dominates the construction of the sendable builder state'
+    # paths on which the count is a known constant >= 1 (the scalar variants) are threaded past the emptiness test to its
+    # "not empty" side: they do not count as ways around the guard
+    by_pass = set()
+    for bi_, blk_ in enumerate(ib.blocks):
+        tm_ = blk_['term']
+        if tm_.get('threaded') and tm_.get('from_switch') is not None and ib.blocks[tm_['from_switch']]['term']['k'] == 'switch':
+            sw_ = tm_['from_switch']
+            dt_, edges_ = T.switch_facts(sw_)
+            nonempty_ = [s_ for s_, labs_ in edges_.items() if any(l_[0] == 'otherwise' and tuple(l_[1]) == ('0',) for l_ in labs_)]
+            if _is_count_of_val(norm(dt_), fm, ib, T) and tm_['target'] in nonempty_:
+                by_pass.add(bi_)
     for sbk in succ_blocks:
-        for dt, labels, sbi in guards_of(T, sbk) or []:
+        for dt, labels, sbi in guards_of(T, sbk, removed=by_pass) or []:
             d = norm(dt)
             # count(val) == 0  false edge ;  or is_empty false
             cnt = None
@@ -1187,6 +1198,8 @@ def rule_nonempty(fm, rep, rid='R7'):
                             if d[1] in ('Eq', 'Ne') and atom(d[2]) and d[3][0] == 'const' and d[3][2] == '0':
                                 if (d[1] == 'Ne') == lab[1]:
                                     guarded = True
+            elif _is_count_of_val(d, fm, ib, T) and any(l[0] == 'otherwise' and tuple(l[1]) == ('0',) for l in labels):
+                guarded = True          # `match count { 0 => reject, _ => .. }`: the "anything but 0" edge
             elif d[0] == 'call' and any(strip_generics(x.path) == d[1] for x in preds) and ('bool', False) in labels:
                 okp, whyp = _emptiness_predicate(cad, [x for x in preds if strip_generics(x.path) == d[1]][0])
                 if okp:
@@ -1219,6 +1232,8 @@ def rule_nonempty(fm, rep, rid='R7'):
                     err_blocks.append(bi)
 
         def empty_edge(d, labels):
+            if _is_count_of_val(d, fm, ib, T):
+                return ('int', 0) in labels
             if d[0] == 'bin':
                 def atom(t_):
                     return 'n' if _is_count_of_val(t_, fm, ib, T) else None
